@@ -438,6 +438,36 @@ func (c *consumer) initGroup() {
 	}
 }
 
+// leavingAssignment returns what must be handed back to the user when we stop
+// being a member: the current assignment, plus anything the last session owned
+// that a newer assignment (a heartbeat or sync response we stored just before
+// quitting) dropped but whose revocation never ran. Without the latter, those
+// partitions would leave us with neither an OnPartitionsRevoked nor an
+// OnPartitionsLost while the broker hands them to another member.
+func (g *groupConsumer) leavingAssignment() map[string][]int32 {
+	now := g.nowAssigned.read()
+	var out map[string][]int32
+	for topic, lastPartitions := range g.lastAssigned {
+		nowPartitions := now[topic]
+		for _, lastPartition := range lastPartitions {
+			if slices.Contains(nowPartitions, lastPartition) {
+				continue
+			}
+			if out == nil {
+				out = make(map[string][]int32, len(now))
+				for t, ps := range now {
+					out[t] = slices.Clone(ps)
+				}
+			}
+			out[topic] = append(out[topic], lastPartition)
+		}
+	}
+	if out == nil {
+		return now
+	}
+	return out
+}
+
 func (g *groupConsumer) manageFailWait(consecutiveErrors int, err error) (ctxCanceled bool) {
 	// If the user has BlockPollOnRebalance enabled, we have to
 	// block around the onLost and assigning.
@@ -457,7 +487,7 @@ func (g *groupConsumer) manageFailWait(consecutiveErrors int, err error) (ctxCan
 		// onRevoked, but since we are handling this case for
 		// the cooperative consumer we may as well just also
 		// include the eager consumer.
-		g.cfg.onRevoked(g.cl.ctx, g.cl, g.nowAssigned.read())
+		g.cfg.onRevoked(g.cl.ctx, g.cl, g.leavingAssignment())
 	} else {
 		// Any other error is perceived as a fatal error,
 		// and we go into onLost as appropriate.
@@ -755,7 +785,11 @@ func (g *groupConsumer) revoke(stage revokeStage, lost map[string][]int32, leavi
 		} else {
 			g.cfg.logger.Log(LogLevelInfo, "cooperative consumer revoking prior assigned partitions because leaving group", "group", g.cfg.group, "revoking", mtps(g.nowAssigned.read()))
 		}
-		g.cfg.onRevoked(g.cl.ctx, g.cl, g.nowAssigned.read())
+		revoking := g.nowAssigned.read()
+		if leaving {
+			revoking = g.leavingAssignment()
+		}
+		g.cfg.onRevoked(g.cl.ctx, g.cl, revoking)
 		g.nowAssigned.store(nil)
 		g.lastAssigned = nil
 
